@@ -410,15 +410,18 @@ func c07Check(c *interp.Ctx, t *c07Text, out string, width func(string) string, 
 		inserted := jc == ""
 		if inserted || jc == `\N` {
 			// \n while row < numLines-1, \l after
-			isLast, _ := valid(lastRow)
-			isNotLast, _ := valid(interp.Not(lastRow))
-			switch {
-			case isLast:
+			// whether this row is the last of the box: a fork of the oracle when
+			// the code itself did not decide it on this path
+			isLast := false
+			if c == nil {
+				isLast = evalGround(lastRow)
+			} else {
+				isLast = c.Decide(lastRow)
+			}
+			if isLast {
 				want = `\l`
-			case isNotLast:
+			} else {
 				want = `\n`
-			default:
-				panic(interp.Inconclusive{Msg: "row vs numLines undecided on this path"})
 			}
 		}
 		if l.code != want {
@@ -692,6 +695,9 @@ type c07PlumbCase struct {
 	// explicitly for each of the two fonts; they must not influence the call
 	// under test
 	Before bool `json:"earlier_explicit_calls"`
+	// Hex: the numeric parameters are written as hexadecimal literals
+	// (maxLineLength 0x10, numLines 0x3, cursorOverlapWidth 0x2)
+	Hex bool `json:"hex_literals"`
 }
 
 func (pc *c07PlumbCase) String() string {
@@ -712,6 +718,9 @@ func (pc *c07PlumbCase) String() string {
 	if pc.Before {
 		s += " after explicit calls"
 	}
+	if pc.Hex {
+		s += " hex"
+	}
 	return s
 }
 
@@ -727,6 +736,7 @@ func c07PlumbRun(w *Worker, pc *c07PlumbCase, rep *Report) {
 	body := func(c *interp.Ctx) {
 		atoms := &AtomTable{Coded: true}
 		val := map[string]*Atom{}
+		hexVal := map[string]int{"max": 0x10, "lines": 0x3, "overlap": 0x2}
 		var parts []string
 		explicitFont := ""
 		for _, p := range pc.Params {
@@ -734,6 +744,11 @@ func c07PlumbRun(w *Worker, pc *c07PlumbCase, rep *Report) {
 			if p.Name == "font" {
 				explicitFont = "font2"
 				spelled = "\"font2\""
+			} else if pc.Hex {
+				// a literal: the reference uses its value through a pinned atom
+				a := atoms.New(ClsNum, p.Name, "")
+				val[p.Name] = a
+				spelled = fmt.Sprintf("0x%X", hexVal[p.Name])
 			} else {
 				a := atoms.New(ClsNum, p.Name, "")
 				val[p.Name] = a
@@ -763,8 +778,11 @@ func c07PlumbRun(w *Worker, pc *c07PlumbCase, rep *Report) {
 		for _, v := range all {
 			c.Assume(fmt.Sprintf("(and (>= %s (- 3)) (<= %s 40))", v.T, v.T))
 		}
-		for _, a := range val {
+		for name, a := range val {
 			c.Assume(fmt.Sprintf("(and (>= %s (- 3)) (<= %s 40))", a.IntT, a.IntT))
+			if pc.Hex {
+				c.Assume(fmt.Sprintf("(= %s %d)", a.IntT, hexVal[name]))
+			}
 		}
 		cliFont := ""
 		if pc.CLIFont {
@@ -925,6 +943,15 @@ func c07PlumbCases() []*c07PlumbCase {
 	for _, f := range forms {
 		for _, cli := range []bool{false, true} {
 			res = append(res, &c07PlumbCase{Params: f, CLIFont: cli}, &c07PlumbCase{Params: f, CLIFont: cli, Before: true})
+			hasNum := false
+			for _, p := range f {
+				if p.Name != "font" {
+					hasNum = true
+				}
+			}
+			if hasNum && !cli {
+				res = append(res, &c07PlumbCase{Params: f, Hex: true})
+			}
 		}
 	}
 	return res
